@@ -42,6 +42,16 @@ def str_method(ex, base, attr, args, kwargs, st, n):
         if ex.pure:
             return parts
         return ex.new_list(st, TStr, parts.t)
+    if attr == 'join' and args[0].pt.kind == 'cell':
+        from .calls import downcast_cell
+        args = [downcast_cell(ex, st, args[0], TList(TCell), n)]
+    if attr == 'join' and args[0].pt.kind == 'list' and args[0].pt.args[0].kind == 'cell':
+        # joining a record whose cells are (by now) all strings
+        cells = ex.list_content(st, args[0])
+        allstr = spec(ex, 'all_strings', [SV(TSeq(TCell), cells)])
+        if not ex.branch(st, allstr.t, raising='TypeError', node=n):
+            raise PyExc(ExcV('TypeError'))
+        return spec(ex, 'cells_join', [base, SV(TSeq(TCell), cells)])
     if attr == 'join':
         seq = ex.as_seq(st, args[0], TStr) if args[0].pt.kind != 'seq' else args[0].t
         return spec(ex, 'str_join', [base, SV(TSeq(TStr), seq)])
